@@ -104,6 +104,10 @@ Definition c_lost (v : nat) (x : conn) : conn :=
 Definition c_via (v : via) (x : conn) : conn :=
   Build_conn (ph x) (cst x) (sock x) (inmap x) (resp x) (closeconn x) (panicked x) (pend_err x) (close_cb x) (acc_arg x) (live_at_cb x) (started x) (replied x) (owed x) (lost x) v.
 
+(* ghost bookkeeping: ViaLoadIdle (the fall-through after a failed CAS saw `idle`) is never overwritten *)
+Definition via_set (n : via) (x : conn) : conn :=
+  match sd_via x with ViaLoadIdle => x | _ => c_via n x end.
+
 (* ---------- global state ---------- *)
 Inductive err := ENil | EClosed (* ErrServerClosed *) | EOther | ECtx (* ctx.Err() *) | EPanic (* nil listener dereferenced in the caller's goroutine *).
 
@@ -413,9 +417,10 @@ Definition step (v : variant) (k : cfg) (s : state) (l : label) : option state :
   | LSdCas c =>
       match sd s, get s c with
       | SdPass todo ai, Some x =>
-          if mem_nat c todo then
+          (* `range` only yields current members of the map *)
+          if mem_nat c todo && inmap x then
             match cst x with
-            | CIdle => Some (s_sd (SdClosing c (remove_nat c todo) ai) (put s c (c_cst CClosed (c_via ViaCas x))))
+            | CIdle => Some (s_sd (SdClosing c (remove_nat c todo) ai) (put s c (c_cst CClosed (via_set ViaCas x))))
             | _ => Some (s_sd (SdFailed c (remove_nat c todo) ai) s)
             end
           else None
@@ -427,7 +432,7 @@ Definition step (v : variant) (k : cfg) (s : state) (l : label) : option state :
           if Nat.eqb c c' then
             match cst x with
             | CHandling => Some (s_sd (SdPass todo false) s)
-            | CClosed => Some (s_sd (SdClosing c todo ai) (put s c (c_via ViaLoadClosed x)))
+            | CClosed => Some (s_sd (SdClosing c todo ai) (put s c (via_set ViaLoadClosed x)))
             | CIdle => Some (s_sd (SdClosing c todo ai) (put s c (c_via ViaLoadIdle x)))
             end
           else None
